@@ -1,8 +1,9 @@
 PROP = dict(
-  units=['ebr', 'qsbr', 'lfrc', 'stampit_guard', 'hp:gops_k1,gops_k2'],
+  units=['rlist', 'tbl', 'hpscan', 'ebr', 'qsbr', 'lfrc', 'stampit_guard', 'hp:gops_k1,gops_k2'],
   level='other',
   strict_obligations=True,
-  obligations=['ebr.conserve', 'ebr.dtor.hands_over_all', 'ebr.dtor.releases_record', 'ebr.reclaim.retires_once', 'ebr.orphans.slot', 'ebr.retire.slot', 'ebr.free.exact',
+  obligations=['rlist.*', 'tbl.retired.conserve', 'tbl.abandon.commit', 'hpscan.conserve', 'hescan.conserve', 'hpscan.dtor.hands_over_all', 'hpscan.retire.once_then_trigger',
+               'ebr.conserve', 'ebr.dtor.hands_over_all', 'ebr.dtor.releases_record', 'ebr.reclaim.retires_once', 'ebr.orphans.slot', 'ebr.retire.slot', 'ebr.free.exact',
                'qsbr.conserve', 'qsbr.dtor.hands_over_all', 'qsbr.dtor.releases_record', 'qsbr.reclaim.retires_once', 'qsbr.retire.current_epoch', 'qsbr.orphans.target_epoch', 'qsbr.free.on_reentry',
                'lfrc.freelist.conserve', 'lfrc.reclaim.once', 'lfrc.reset.destroy_iff_claimed', 'lfrc.freelist.push_links', 'lfrc.freelist.pop_owns', 'lfrc.decrement.claims_once',
                'stamp.conserve', 'stamp.dtor.hands_over_all', 'stamp.global.restart_progress', 'stamp.free.below_tail',
